@@ -22,9 +22,10 @@ pub struct Table { pub insts: Vec<OpInst>, pub validations: u64, pub built: u64,
 
 fn valid(p: Profile, body: &[we::Instruction]) -> bool { catch(|| amod::validate(&env::universe(p, body), env::walrus_features(false)).is_ok()).unwrap_or(false) }
 
-fn find_operands(p: Profile, ins: &we::Instruction<'static>, hint: Option<&Vec<u8>>, n: &mut u64) -> Option<Vec<u8>> {
+pub fn find_operands(p: Profile, ins: &we::Instruction<'static>, hint: Option<&Vec<u8>>, n: &mut u64) -> Option<Vec<u8>> {
     let mut try_one = |ops: &[u8]| -> bool { *n += 1; let mut body: Vec<we::Instruction> = ops.iter().map(|c| env::const_of(*c)).collect(); body.push(ins.clone()); body.push(we::Instruction::Unreachable); valid(p, &body) };
-    if let Some(h) = hint { if try_one(h) { return Some(h.clone()); } }
+    // extra leading operands never hurt validity (they stay below), so a hint is shrunk to the minimal suffix
+    if let Some(h) = hint { if try_one(h) { let mut v = h.clone(); while !v.is_empty() && try_one(&v[1..]) { v.remove(0); } return Some(v); } }
     for len in 0..=4usize {
         let mut idx = vec![0u8; len];
         loop {
